@@ -1,3 +1,291 @@
-"""Fail-closed extractor: regenerates coq/Gen/*.v from /repo (filled in below as tables are added)."""
+"""Fail-closed extractor: regenerates coq/Gen/*.v from /repo/asyncstdlib on every run.
+
+Gen/AwaitGraph.v  every await / async for / async with site of the library, classified as
+                  User (the awaited object comes from a parameter / attribute / local, i.e. user supplied),
+                  Lib  (a coroutine, generator or context manager defined in the library),
+                  Other (anything else: e.g. asyncio primitives);  plus every `__await__` implementation
+                  (Delegates / Other) and the asyncio imports of each module.
+Gen/Handlers.v    every `except` clause: module, function, caught classes, whether it re-raises.
+Gen/Scoping.v     per generator/aggregation function: how each iterable parameter is held
+                  (Scoped / FinallyClosed / Delegated / Unscoped).
+An AST shape the extractor does not know is reported as Other / Unscoped (never skipped), so the obligations in
+Props fail rather than pass silently.  Files are only rewritten when their content changes."""
+import ast
+import os
 import sys
-sys.exit(0)
+
+PKG = "/repo/asyncstdlib"
+GEN = "/verif/coq/Gen"
+MODULES = ["_core", "builtins", "itertools", "heapq", "functools", "_lrucache", "contextlib", "asynctools"]
+
+
+def q(s):
+    return '"%s"' % s.replace('"', "'")
+
+
+def write_if_changed(path, text):
+    if os.path.exists(path) and open(path).read() == text:
+        return
+    with open(path, "w") as f:
+        f.write(text)
+
+
+def lib_names():
+    """names defined at module level anywhere in the package (functions, classes) + what modules import from siblings"""
+    names = set()
+    for m in MODULES:
+        tree = ast.parse(open(os.path.join(PKG, m + ".py")).read())
+        for n in tree.body:
+            if isinstance(n, (ast.FunctionDef, ast.AsyncFunctionDef, ast.ClassDef)):
+                names.add(n.name)
+            elif isinstance(n, ast.Assign):
+                for t in n.targets:
+                    if isinstance(t, ast.Name) and isinstance(n.value, ast.Name) and n.value.id in names:
+                        names.add(t.id)          # aliases such as  tee = Tee
+            elif isinstance(n, ast.ImportFrom) and n.level >= 1:
+                for al in n.names:
+                    names.add(al.asname or al.name)
+    return names
+
+
+class FuncInfo(ast.NodeVisitor):
+    """collects locals (params + assignment targets), and which locals are bound to library calls"""
+
+    def __init__(self, fn, libs, cls_methods):
+        self.libs = libs
+        self.cls_methods = cls_methods
+        self.params = set()
+        a_ = fn.args
+        for x in a_.posonlyargs + a_.args + a_.kwonlyargs:
+            self.params.add(x.arg)
+        if a_.vararg:
+            self.params.add(a_.vararg.arg)
+        if a_.kwarg:
+            self.params.add(a_.kwarg.arg)
+        self.locals = set(self.params)
+        self.liblocals = set()
+        for n in ast.walk(fn):
+            if isinstance(n, (ast.Assign, ast.AnnAssign, ast.AugAssign)):
+                targets = n.targets if isinstance(n, ast.Assign) else [n.target]
+                for t in targets:
+                    for nm in ast.walk(t):
+                        if isinstance(nm, ast.Name):
+                            self.locals.add(nm.id)
+                            if isinstance(n, (ast.Assign, ast.AnnAssign)) and n.value is not None and self.is_lib_expr(n.value):
+                                self.liblocals.add(nm.id)
+            elif isinstance(n, ast.NamedExpr):
+                self.locals.add(n.target.id)
+            elif isinstance(n, (ast.For, ast.AsyncFor, ast.comprehension)):
+                for nm in ast.walk(n.target):
+                    if isinstance(nm, ast.Name):
+                        self.locals.add(nm.id)
+            elif isinstance(n, (ast.With, ast.AsyncWith)):
+                for it in n.items:
+                    if it.optional_vars is not None:
+                        for nm in ast.walk(it.optional_vars):
+                            if isinstance(nm, ast.Name):
+                                self.locals.add(nm.id)
+            elif isinstance(n, ast.ExceptHandler) and n.name:
+                self.locals.add(n.name)
+
+    def is_lib_expr(self, e):
+        """expression evaluating to a library-made coroutine / generator / context manager"""
+        if isinstance(e, ast.IfExp):
+            return self.is_lib_expr(e.body) and self.is_lib_expr(e.orelse)
+        if isinstance(e, ast.Call):
+            f = e.func
+            if isinstance(f, ast.Subscript):
+                f = f.value
+            if isinstance(f, ast.Name):
+                return f.id in self.libs and f.id not in self.locals
+            if isinstance(f, ast.Attribute):
+                v = f.value
+                if isinstance(v, ast.Subscript):
+                    v = v.value
+                if isinstance(v, ast.Name) and v.id in ("self", "cls") and f.attr in self.cls_methods:
+                    return True
+                if isinstance(v, ast.Name) and v.id in self.libs and v.id not in self.locals:
+                    return True          # Class.method(...), e.g. _KeyIter.from_iters
+                if isinstance(v, ast.Attribute) and isinstance(v.value, ast.Name) and v.value.id == "self" and f.attr in ("_aclose_wrapper", "aclose") \
+                        and v.attr in ("_borrowed_iter",):
+                    return True
+        return False
+
+    def classify(self, e):
+        if self.is_lib_expr(e):
+            return "Lib"
+        # user supplied: rooted at a parameter / local / self attribute
+        root = e
+        while True:
+            if isinstance(root, ast.Call):
+                root = root.func
+            elif isinstance(root, (ast.Attribute, ast.Subscript, ast.Starred)):
+                root = root.value
+            else:
+                break
+        if isinstance(root, ast.Name):
+            if root.id in self.liblocals:
+                return "Lib"
+            if root.id in self.locals or root.id in ("self", "cls"):
+                return "User"
+            if root.id in self.libs:
+                return "Lib"
+        return "Other"
+
+
+def await_sites(tree, libs):
+    out = []
+    awaits_impl = []
+    for cls in [None] + [n for n in ast.walk(tree) if isinstance(n, ast.ClassDef)]:
+        body = tree.body if cls is None else cls.body
+        methods = set() if cls is None else {n.name for n in cls.body if isinstance(n, (ast.FunctionDef, ast.AsyncFunctionDef))}
+        # inherited helper methods of the library's own classes
+        methods |= {"aclose", "_aclose_wrapper", "_await_impl", "_get_attribute", "__aexit__", "__aenter__", "step", "maybe_step", "pull_head", "_recreate_cm", "__anext__"} if cls is not None else set()
+        for fn in body:
+            if not isinstance(fn, (ast.FunctionDef, ast.AsyncFunctionDef)):
+                continue
+            qual = fn.name if cls is None else "%s.%s" % (cls.name, fn.name)
+            info = FuncInfo(fn, libs, methods)
+            if fn.name == "__await__":
+                awaits_impl.append((qual, classify_await_impl(fn)))
+            nested = [n for n in ast.walk(fn) if isinstance(n, (ast.FunctionDef, ast.AsyncFunctionDef)) and n is not fn]
+            for inner in nested:
+                ii = FuncInfo(inner, libs, methods)
+                ii.locals |= info.locals
+                ii.liblocals |= info.liblocals
+                collect(inner, "%s.<%s>" % (qual, inner.name), ii, out)
+            collect(fn, qual, info, out, skip=nested)
+    return out, awaits_impl
+
+
+def collect(fn, qual, info, out, skip=()):
+    skipset = set()
+    for s in skip:
+        for n in ast.walk(s):
+            skipset.add(id(n))
+    for n in ast.walk(fn):
+        if id(n) in skipset:
+            continue
+        if isinstance(n, ast.Await):
+            out.append((qual, "await", info.classify(n.value), n.lineno))
+        elif isinstance(n, ast.AsyncFor):
+            out.append((qual, "async_for", info.classify(n.iter), n.lineno))
+        elif isinstance(n, ast.AsyncWith):
+            for it in n.items:
+                out.append((qual, "async_with", info.classify(it.context_expr), n.lineno))
+        elif isinstance(n, ast.comprehension) and n.is_async:
+            out.append((qual, "async_for", info.classify(n.iter), getattr(n.iter, "lineno", 0)))
+
+
+def classify_await_impl(fn):
+    """an __await__ must delegate (`return X.__await__()`) or be the trivial value holder (return + unreachable yield)"""
+    stmts = [s for s in fn.body if not (isinstance(s, ast.Expr) and isinstance(s.value, ast.Constant))]
+    if len(stmts) == 1 and isinstance(stmts[0], ast.Return) and isinstance(stmts[0].value, ast.Call) \
+            and isinstance(stmts[0].value.func, ast.Attribute) and stmts[0].value.func.attr == "__await__":
+        return "Delegates"
+    if len(stmts) == 2 and isinstance(stmts[0], ast.Return) and isinstance(stmts[1], ast.Expr) and isinstance(stmts[1].value, ast.Yield) \
+            and stmts[1].value.value is None:
+        return "Delegates"      # value holder: returns at once, the yield is unreachable
+    return "Other"
+
+
+def handlers(tree):
+    out = []
+
+    def names(t):
+        if t is None:
+            return ["<bare>"]
+        if isinstance(t, ast.Tuple):
+            return [x for e in t.elts for x in names(e)]
+        if isinstance(t, ast.Name):
+            return [t.id]
+        if isinstance(t, ast.Attribute):
+            return [t.attr]
+        return ["<expr>"]
+
+    def walk(node, qual):
+        for ch in ast.iter_child_nodes(node):
+            if isinstance(ch, (ast.FunctionDef, ast.AsyncFunctionDef, ast.ClassDef)):
+                walk(ch, (qual + "." if qual else "") + ch.name)
+            else:
+                if isinstance(ch, ast.ExceptHandler):
+                    reraises = any(isinstance(x, ast.Raise) and x.exc is None for x in ast.walk(ch))
+                    raises_other = any(isinstance(x, ast.Raise) and x.exc is not None for x in ast.walk(ch))
+                    out.append((qual, names(ch.type), reraises, raises_other, ch.lineno))
+                walk(ch, qual)
+    walk(tree, "")
+    return out
+
+
+def scoping(tree):
+    """per async function: parameters given to aiter()/iteration without a scope"""
+    out = []
+    for fn in ast.walk(tree):
+        if not isinstance(fn, ast.AsyncFunctionDef):
+            continue
+        params = {x.arg for x in fn.args.posonlyargs + fn.args.args + fn.args.kwonlyargs}
+        if fn.args.vararg:
+            params.add(fn.args.vararg.arg)
+        params -= {"self", "cls"}
+
+        def roots(e):
+            return {n.id for n in ast.walk(e) if isinstance(n, ast.Name)}
+        finally_closes = any(isinstance(t, ast.Try) and any(isinstance(c, ast.Call) and getattr(c.func, "id", getattr(c.func, "attr", "")) in ("close_all", "_close_all")
+                                                            for s in t.finalbody for c in ast.walk(s)) for t in ast.walk(fn))
+        held = {}
+        for n in ast.walk(fn):
+            if isinstance(n, ast.Call) and isinstance(n.func, ast.Name):
+                if n.func.id == "ScopedIter":
+                    for p in roots(n) & params:
+                        held[p] = "Scoped"
+                elif n.func.id in ("aiter", "_aiter_sync"):
+                    for p in roots(n) & params:
+                        held.setdefault(p, "FinallyClosed" if finally_closes else "Unscoped")
+            if isinstance(n, (ast.AsyncFor,)) or (isinstance(n, ast.comprehension) and n.is_async):
+                it = n.iter
+                if isinstance(it, ast.Name) and it.id in params:
+                    held.setdefault(it.id, "Unscoped")       # iterating a parameter directly: nobody closes it
+        for p, h in sorted(held.items()):
+            out.append((fn.name, p, h, fn.lineno))
+    return out
+
+
+def main():
+    os.makedirs(GEN, exist_ok=True)
+    libs = lib_names()
+    sites, impls, hands, scopes, imports = [], [], [], [], []
+    for m in MODULES:
+        src = open(os.path.join(PKG, m + ".py")).read()
+        tree = ast.parse(src)
+        s_, i_ = await_sites(tree, libs)
+        sites += [(m,) + x for x in s_]
+        impls += [(m,) + x for x in i_]
+        hands += [(m,) + x for x in handlers(tree)]
+        scopes += [(m,) + x for x in scoping(tree)]
+        for n in ast.walk(tree):
+            if isinstance(n, ast.Import):
+                for al in n.names:
+                    if al.name.split(".")[0] == "asyncio":
+                        imports.append((m, "import " + al.name))
+            elif isinstance(n, ast.ImportFrom) and (n.module or "").split(".")[0] == "asyncio":
+                for al in n.names:
+                    imports.append((m, al.name))
+    head = "(* GENERATED by harness/extract.py from /repo/asyncstdlib -- do not edit *)\nFrom Coq Require Import List String Bool.\nImport ListNotations.\nOpen Scope string_scope.\n"
+    t = head + "Inductive origin := User | Lib | Other.\nInductive impl := Delegates | NotTransparent.\n"
+    t += "Definition await_sites : list (string * string * string * origin) := [\n" + ";\n".join(
+        "  (%s, %s, %s, %s)" % (q(m), q(f), q(k), c) for m, f, k, c, ln in sites) + "\n].\n"
+    t += "Definition await_impls : list (string * string * impl) := [\n" + ";\n".join(
+        "  (%s, %s, %s)" % (q(m), q(f), "Delegates" if c == "Delegates" else "NotTransparent") for m, f, c in impls) + "\n].\n"
+    t += "Definition asyncio_imports : list (string * string) := [\n" + ";\n".join("  (%s, %s)" % (q(m), q(n)) for m, n in imports) + "\n].\n"
+    write_if_changed(os.path.join(GEN, "AwaitGraph.v"), t)
+    t = head + "Definition handlers : list (string * string * list string * bool * bool) := [\n" + ";\n".join(
+        "  (%s, %s, [%s], %s, %s)" % (q(m), q(f), "; ".join(q(n) for n in ns), "true" if rr else "false", "true" if ro else "false") for m, f, ns, rr, ro, ln in hands) + "\n].\n"
+    write_if_changed(os.path.join(GEN, "Handlers.v"), t)
+    t = head + "Inductive holding := Scoped | FinallyClosed | Unscoped.\nDefinition scoping : list (string * string * string * holding) := [\n" + ";\n".join(
+        "  (%s, %s, %s, %s)" % (q(m), q(f), q(p), h) for m, f, p, h, ln in scopes) + "\n].\n"
+    write_if_changed(os.path.join(GEN, "Scoping.v"), t)
+    return 0
+
+
+if __name__ == "__main__":
+    sys.exit(main())
